@@ -35,6 +35,9 @@ std::vector<uint64_t> g_orders; // distinct (team, member order) hashes seen, ca
 __thread int t_num = 0;
 __thread int t_team = 1;
 __thread int t_depth = 0;
+__thread pthread_barrier_t *t_barrier = NULL; // team barrier (threads mode)
+pthread_mutex_t g_critical = PTHREAD_MUTEX_INITIALIZER;
+uint64_t g_barriers = 0;
 
 uint64_t sm(uint64_t &x)
 {
@@ -63,6 +66,7 @@ struct Start
     void *data;
     int num, team;
     uint64_t delay_seed;
+    pthread_barrier_t *barrier;
 };
 void *member(void *p)
 {
@@ -70,6 +74,7 @@ void *member(void *p)
     t_num = s->num;
     t_team = s->team;
     t_depth = 1;
+    t_barrier = s->barrier;
     if (g_delay_us > 0)
     {
         uint64_t x = s->delay_seed;
@@ -184,27 +189,50 @@ void GOMP_parallel(void (*fn)(void *), void *data, unsigned num_threads, unsigne
     // threads mode
     std::vector<pthread_t> th(team);
     std::vector<Start> st(team);
+    pthread_barrier_t barrier;
+    pthread_barrier_init(&barrier, NULL, (unsigned)team);
     for (int i = 0; i < team; i++)
     {
-        st[i].fn = fn; st[i].data = data; st[i].num = i; st[i].team = team;
+        st[i].fn = fn; st[i].data = data; st[i].num = i; st[i].team = team; st[i].barrier = &barrier;
         st[i].delay_seed = g_perm_seed ^ (g_regions * 1315423911ULL) ^ (uint64_t)i * 2654435761ULL;
     }
     for (int i = 1; i < team; i++)
     {
         if (pthread_create(&th[i], NULL, member, &st[i]) != 0)
-        { // cannot create more threads: run the member here (still a legal schedule)
-            th[i] = 0;
-            member(&st[i]);
-            st[i].fn = NULL;
+        { // cannot create more threads: regions without barriers could run the member here, but a barrier would deadlock: give up (inconclusive)
+            static const char m[] = "verif gomp_shim: pthread_create failed\n";
+            ssize_t w = write(2, m, sizeof m - 1);
+            (void)w;
+            _exit(86);
         }
     }
     member(&st[0]);
     for (int i = 1; i < team; i++)
         if (st[i].fn) pthread_join(th[i], NULL);
-    t_num = 0; t_team = 1; t_depth = 0;
+    pthread_barrier_destroy(&barrier);
+    t_num = 0; t_team = 1; t_depth = 0; t_barrier = NULL;
 }
 
+// constructs a changed library might start to use: barrier (threads mode only), critical, single
+void GOMP_barrier(void)
+{
+    if (t_depth == 0 || t_team == 1) return;
+    if (g_mode == 1 || t_barrier == NULL)
+    {
+        static const char m[] = "verif gomp_shim: a barrier inside a parallel region cannot be executed with sequential team members (inconclusive)\n";
+        ssize_t w = write(2, m, sizeof m - 1);
+        (void)w;
+        _exit(86);
+    }
+    __sync_fetch_and_add(&g_barriers, 1);
+    pthread_barrier_wait(t_barrier);
+}
+void GOMP_critical_start(void) { pthread_mutex_lock(&g_critical); }
+void GOMP_critical_end(void) { pthread_mutex_unlock(&g_critical); }
+bool GOMP_single_start(void) { return (t_depth > 0 ? t_num : 0) == 0; }
+
 int omp_get_thread_num(void) { return t_depth > 0 ? t_num : 0; }
+int omp_in_parallel(void) { return t_depth > 0 && t_team > 1; }
 int omp_get_num_threads(void) { return t_depth > 0 ? t_team : 1; }
 int omp_get_max_threads(void)
 {
